@@ -1,4 +1,5 @@
 import PilotaModel.TGen.Decode
+import PilotaModel.TGen.Keep
 import Driver.Thrift
 /-
   Line-protocol verbs for emitted Thrift code (harness/genrun).  Documents are registered by
@@ -33,7 +34,13 @@ def inputOf (p : Proto) (v : TVal) : Out Bytes :=
 
 open Driver.Thrift in
 /-- decode the item `n` of `d` from `bs` under protocol `p`; returns the value and the remaining length. -/
-def decodeWith (d : Doc) (n : String) (p : Proto) (bs : Bytes) : Out (TVal × Nat) :=
+def decodeWith (d : Doc) (n : String) (p : Proto) (bs : Bytes) (keep : Bool := false) : Out (TVal × Nat) :=
+  if keep then
+    match p with
+    | .bin => mapOut (fun x => (x.1, x.2.length)) (decodeK .be (some skipDepth) d n bs)
+    | .ubin => mapOut (fun x => (x.1, x.2.length)) (decodeK .be none d n bs)
+    | _ => .err .other
+  else
   match p with
   | .bin => mapOut (fun x => (x.1, x.2.length)) (decode (binRd .be (some skipDepth)) d n bs)
   | .ubin => mapOut (fun x => (x.1, x.2.length)) (decode (binRd .be none) d n bs)
@@ -56,7 +63,7 @@ def answer (docs : Docs) (items : List Sexp) : Option (Docs × String) := do
     let input : Out Bytes ← if verb == "gb" then (.ok <$> (items[idx]? >>= Sexp.asHex)) else (inputOf p <$> (items[idx]? >>= TVal.ofSexp))
     match input with
     | .ok bs =>
-      match decodeWith d ty p bs with
+      match decodeWith d ty p bs (dn.endsWith "k") with
       | .ok (v, rem) =>
         if verb == "ga" then pure (docs, s!"ok {shown v} pulled={bs.length - rem}")
         else pure (docs, s!"ok {shown v} rem={rem}")
